@@ -262,7 +262,7 @@ AddNotifier(x, kind) ==
 
 AddCsvWatch(x) ==
   LET d == D(x)  g == Gate(x, "watch.csv") IN IF g.crashed THEN g ELSE
-  PollWatch(After([g EXCEPT !.nd.wcsv = @ \cup {[sid |-> d.sid, tx |-> d.otb.tx, vout |-> d.otb.vout, start |-> d.start, csv |-> CsvOf(d)]}], "watch.csv"))
+  PollWatch(After([g EXCEPT !.nd.wcsv = {r \in @ : r.sid # d.sid} \cup {[sid |-> d.sid, tx |-> d.otb.tx, vout |-> d.otb.vout, start |-> d.start, csv |-> CsvOf(d)]}], "watch.csv"))
 
 ActAwaitFeeInvoicePayment(x) == LET a == AddNotifier(x, "fee") IN IF a.crashed THEN a ELSE Out(a, "NoOp")
 ActAwaitPaymentOrCsv(x) ==
@@ -298,7 +298,7 @@ ActAwaitTxConfirmation(x) ==
   IF DChain(d) = "btc" /\ (d.start = 0 \/ tip >= d.start + 504) THEN Fail(g2, "exceeded safe swap range")
   ELSE IF DChain(d) = "lbtc" /\ ~WindowOK(d, tip) THEN Fail(g2, "claim payment window")
   ELSE LET g3 == Gate(g2, "watch.conf") IN IF g3.crashed THEN g3 ELSE
-       Out(PollWatch(After([g3 EXCEPT !.nd.wconf = @ \cup {[sid |-> d.sid, tx |-> d.otb.tx, vout |-> d.otb.vout, start |-> d.start, window |-> WindowOf(d)]}], "watch.conf")), "NoOp")
+       Out(PollWatch(After([g3 EXCEPT !.nd.wconf = {r \in @ : r.sid # d.sid} \cup {[sid |-> d.sid, tx |-> d.otb.tx, vout |-> d.otb.vout, start |-> d.start, window |-> WindowOf(d)]}], "watch.conf")), "NoOp")
 
 \* the validator accepts iff the transaction has an output to the script built from the swap's own parameters
 TxValidFor(d) == d.txhex \in DOMAIN o.tx /\ o.tx[d.txhex].any_good /\ o.tx[d.txhex].hash_locked /\ o.tx[d.txhex].inv_hash = d.claim_hash
@@ -602,6 +602,10 @@ AdvMsgs(n, s) ==
   \cup {M([BlankMsg EXCEPT !.kind = k, !.from = f]) : k \in ReqKinds, f \in {"peer", "third"}}
   \cup {M([BlankMsg EXCEPT !.kind = k]) : k \in {"swap_out_agreement", "swap_in_agreement", "opening_tx_broadcasted", "coop_close"}}
   \cup {M([BlankMsg EXCEPT !.kind = "swap_out_agreement", !.pubkey = "short"])}
+\* junk on the wire: peerswap type numbers with malformed payloads, foreign / even / non-hex type strings, oversized payloads
+RawMsgs == {[BlankMsg EXCEPT !.kind = "raw", !.raw_type = t, !.raw = r] :
+              t \in {"a455", "a457", "a459", "a45b", "a45d", "a45f", "a461"}, r \in {"null", "{}", "[1]", "{\"swap_id\":null}", "{\"swap_id\":\"zz\"}", "big"}}
+           \cup {[BlankMsg EXCEPT !.kind = "raw", !.raw_type = t, !.raw = "{}"] : t \in {"a456", "a463", "a465", "ffff", "zz", "", "1"}}
 NewReqs == {[BlankMsg EXCEPT !.kind = k] : k \in (INITS \cap ReqKinds)}
 AdvNewReqs ==
   {[BlankMsg EXCEPT !.kind = k, !.scid = "100:1:1"] : k \in (INITS \cap ReqKinds)}
@@ -614,7 +618,7 @@ AdvNewReqs ==
 MsgMenu(n) ==
   UNION {PeerMsgs(n, s) : s \in Labels(n)}
   \cup (IF n.nswaps < MAXSWAPS THEN NewReqs ELSE {})
-  \cup (IF ADVERSARY THEN UNION {AdvMsgs(n, s) : s \in Labels(n)} \cup (IF n.nswaps < MAXSWAPS THEN AdvNewReqs ELSE {}) ELSE {})
+  \cup (IF ADVERSARY THEN UNION {AdvMsgs(n, s) : s \in Labels(n)} \cup (IF n.nswaps < MAXSWAPS THEN AdvNewReqs ELSE {}) \cup RawMsgs ELSE {})
 
 FaultGates == {"msg.send", "chain.height", "ln.payclaim", "ln.payfee", "wallet.open", "wallet.spend.preimage", "wallet.spend.csv",
                "wallet.spend.coop", "ln.invoice", "validate", "persist", "ln.decode", "ln.probe", "wallet.fee"}
@@ -668,8 +672,8 @@ DoMsg ==
   /\ Idle /\ nd.up
   /\ \E m \in MsgMenu(nd), plan \in Plans(nd) :
        /\ PlanOK(plan)
-       /\ LET fresh == m.sid = "new"
-              sid == IF fresh THEN NewLabel(nd) ELSE m.sid
+       /\ LET fresh == m.sid = "new" /\ m.kind # "raw"
+              sid == IF m.kind = "raw" THEN "none" ELSE IF fresh THEN NewLabel(nd) ELSE m.sid
               c == CtxOfMsg(nd, m, sid)
               n1 == [nd EXCEPT !.nswaps = IF fresh THEN @ + 1 ELSE @, !.ptx = IF m.kind \in {"opening_tx_broadcasted", "swap_out_agreement"} THEN @ + 1 ELSE @]
               pre == IF m.kind = "opening_tx_broadcasted"
@@ -687,25 +691,26 @@ HeightMatters == nd.wconf # {} \/ nd.wcsv # {} \/ Mempool # {}
                  \/ \E s \in Labels(nd) : LET kd == KnownData(nd, s) IN kd.role \in Takers /\ kd.cur \notin Terminal /\ (kd.start > 0 \/ kd.start_set)
 DoBlock ==
   /\ Idle /\ HeightMatters
-  /\ \E n \in BlockSizes, incl \in BOOLEAN :
-       /\ (incl => Mempool # {})
+  /\ \E n \in BlockSizes, incl \in BOOLEAN, plan \in Plans(nd) :
+       /\ (incl => Mempool # {}) /\ PlanOK(plan) /\ (plan # NoPlan => nd.up /\ (nd.wconf # {} \/ nd.wcsv # {}))
        /\ LET tip == o.tip[CHAIN] + n
               e == [ev |-> "block", chain |-> CHAIN, tip |-> tip, n |-> n, included |-> IF incl THEN SetToSeq(Mempool) ELSE <<>>, conf_at |-> o.tip[CHAIN] + 1]
-              x == Ctx([nd EXCEPT !.poll = TRUE], NoPlan)
-          IN Commit(x, <<DriveEv("block", [chain |-> CHAIN, n |-> n], NoPlan), e>>, "block", NoPlan,
-                    StepRec("block", [chain |-> CHAIN, n |-> n, incl |-> IF incl THEN <<"all">> ELSE <<>>], NoPlan))
+              x == Ctx([nd EXCEPT !.poll = TRUE], plan)
+          IN Commit(x, <<DriveEv("block", [chain |-> CHAIN, n |-> n], plan), e>>, "block", plan,
+                    StepRec("block", [chain |-> CHAIN, n |-> n, incl |-> IF incl THEN <<"all">> ELSE <<>>], plan))
 
 \* invoices of mine the peer can pay
 Payable == {<<s, "fee">> : s \in {t \in Labels(nd) : LET kd == KnownData(nd, t) IN kd.role = "out_receiver" /\ ~IsNone(kd.out_agr)}}
            \cup {<<s, "claim">> : s \in {t \in Labels(nd) : LET kd == KnownData(nd, t) IN kd.role \in Makers /\ ~IsNone(kd.otb)}}
 DoPay ==
   /\ Idle
-  /\ \E p \in (Payable \ o.paidin) :
-       LET due == {nt \in nd.notif : nt.sid = p[1] /\ nt.kind = p[2]}
-           cbs == SetToSeq({[k |-> "paid", sid |-> nt.sid, kind |-> nt.kind, ok |-> TRUE, tx |-> ""] : nt \in due})
-           x == Ctx([nd EXCEPT !.notif = @ \ due, !.q = @ \o cbs], NoPlan)
-       IN Commit(x, <<DriveEv("pay", [sid |-> p[1], kind |-> p[2]], NoPlan), [ev |-> "ln.paid", sid |-> p[1], kind |-> p[2]]>>, "pay", NoPlan,
-                 StepRec("pay", [sid |-> p[1], kind |-> p[2]], NoPlan))
+  /\ \E p \in (Payable \ o.paidin), plan \in Plans(nd) :
+       /\ PlanOK(plan) /\ (plan # NoPlan => nd.up /\ \E nt \in nd.notif : nt.sid = p[1] /\ nt.kind = p[2])
+       /\ LET due == {nt \in nd.notif : nt.sid = p[1] /\ nt.kind = p[2]}
+              cbs == SetToSeq({[k |-> "paid", sid |-> nt.sid, kind |-> nt.kind, ok |-> TRUE, tx |-> ""] : nt \in due})
+              x == Ctx([nd EXCEPT !.notif = @ \ due, !.q = @ \o cbs], plan)
+          IN Commit(x, <<DriveEv("pay", [sid |-> p[1], kind |-> p[2]], plan), [ev |-> "ln.paid", sid |-> p[1], kind |-> p[2]]>>, "pay", plan,
+                    StepRec("pay", [sid |-> p[1], kind |-> p[2]], plan))
 
 DoHtlc ==
   /\ Idle
